@@ -765,6 +765,11 @@ def run_contract(table, registry, contract, feas_timeout_ms=2000, max_paths=400)
             ob.meta.setdefault('path_tags', list(p.run.tags))
             res.obligations.append(ob)
         res.assumed |= p.run.assumed
+    for ob in getattr(explorer, 'pruned', []):
+        ob.name = f'{contract.id}.pruned_branch'
+        ob.meta['contract'] = contract.id
+        ob.meta.setdefault('path_tags', list(ob.meta.get('tags', [])))
+        res.obligations.append(ob)
     res.functions = set(ex.called) | {contract.target}
     res.contract_calls = set(ex.contract_calls)
     # obligation names must be unique: add path ordinal
